@@ -20,8 +20,14 @@ def gen_fixtures(wd, depth=3):
     return path, nex
 
 def run_harness(mode, n, seed, out, timeout=1500, fixtures=None):
-    p = subprocess.run(["timeout", str(timeout), BIN, "-mode", mode, "-n", str(n), "-seed", str(seed), "-out", out] + (["-fixtures", fixtures] if fixtures else []),
-                       stdout=subprocess.PIPE, stderr=subprocess.STDOUT, text=True, errors="replace")
+    e = dict(os.environ)
+    tmpd = vlib._scratch_tmp(e)  # unistore leaves one directory per store under the temporary directory
+    try:
+        p = subprocess.run(["timeout", str(timeout), BIN, "-mode", mode, "-n", str(n), "-seed", str(seed), "-out", out] + (["-fixtures", fixtures] if fixtures else []),
+                           env=e, stdout=subprocess.PIPE, stderr=subprocess.STDOUT, text=True, errors="replace")
+    finally:
+        import shutil
+        shutil.rmtree(tmpd, ignore_errors=True)
     if p.returncode != 0 or not os.path.exists(out):
         raise vlib.Infra("txn harness (%s) failed rc=%s:\n%s" % (mode, p.returncode, p.stdout[-3000:]))
 
